@@ -4,7 +4,10 @@ package hub
 
 import (
 	"context"
+	"errors"
 	"fmt"
+	"runtime"
+	"strings"
 	"sync"
 	"time"
 
@@ -41,13 +44,14 @@ type Fault struct {
 	Kind    FaultKind
 	Client  *Client
 	N       int
-	Match   func(kind string) bool
-	Class   string          // RegionErr
-	Do      func(w *World)  // Topo (trace lock held: use the *Locked world functions through the helpers below)
-	Start   func()          // Hold
-	Until   func() bool     // Hold
-	MaxHold time.Duration   // Hold (default 300ms)
+	Match   func(kind, cmd string) bool
+	Class   string         // RegionErr
+	Do      func(w *World) // Topo (trace lock held: use the *Locked world functions through the helpers below)
+	Start   func()         // Hold
+	Until   func() bool    // Hold
+	MaxHold time.Duration  // Hold (default 300ms)
 	Label   string
+	Repeat  bool // DropBefore/DropAfter/RegionErr: applies to every matching request from the index on
 
 	at      int // absolute index
 	fired   bool
@@ -55,8 +59,11 @@ type Fault struct {
 	since   time.Time
 }
 
-// Fired reports whether the fault has been applied.
+// Fired reports whether the fault has been applied (read it only after the scenario has drained).
 func (f *Fault) Fired() bool { return f.fired }
+
+// Started reports whether a Hold has begun.
+func (f *Fault) Started() bool { return f.started }
 
 type rpcResult struct {
 	resp *tikvrpc.Response
@@ -80,19 +87,20 @@ type pendingRPC struct {
 // one at a time (seeded choice), executes it on the inner client while holding the trace lock and writes its event line
 // before anything else can happen.
 type Gate struct {
-	w       *World
-	rnd     *vx.Rand
-	mu      sync.Mutex
-	pending []*pendingRPC
-	parked  []*pendingRPC // requests of crashed clients: never executed, released when the world closes
-	faults  []*Fault
-	busy    bool
-	stopped bool
-	nextID  int
-	total   int // RPCs released so far (global index)
-	last    time.Time
-	wake    chan struct{}
-	filter  func(c *Client) bool // optional: only these clients are schedulable
+	w        *World
+	rnd      *vx.Rand
+	mu       sync.Mutex
+	pending  []*pendingRPC
+	parked   []*pendingRPC // requests of crashed clients: never executed, released when the world closes
+	faults   []*Fault
+	busy     bool
+	stopped  bool
+	nextID   int
+	total    int // RPCs released so far (global index)
+	last     time.Time
+	wake     chan struct{}
+	filter   func(c *Client) bool // optional: only these clients are schedulable
+	panicked map[string]bool      // (client, command) pairs whose mock panic has been reported (retries are not re-reported)
 }
 
 func newGate(w *World, rnd *vx.Rand) *Gate {
@@ -137,7 +145,7 @@ func (g *Gate) Total() int { g.mu.Lock(); defer g.mu.Unlock(); return g.total }
 func (g *Gate) idle() bool {
 	g.mu.Lock()
 	defer g.mu.Unlock()
-	return len(g.pending) == 0 && !g.busy && time.Since(g.last) > time.Millisecond
+	return len(g.pending) == 0 && !g.busy && time.Since(g.last) > 400*time.Microsecond
 }
 
 // PendingOf returns the number of pending RPCs of a client.
@@ -210,7 +218,7 @@ func (g *Gate) faultFor(p *pendingRPC) *Fault {
 		if idx < f.at {
 			continue
 		}
-		if f.Match != nil && !f.Match(p.kind) {
+		if f.Match != nil && !f.Match(p.kind, p.cmd) {
 			continue
 		}
 		return f
@@ -218,11 +226,23 @@ func (g *Gate) faultFor(p *pendingRPC) *Fault {
 	return nil
 }
 
+// Pause waits for a short duration by yielding (time.Sleep has a granularity of a millisecond or more on some hosts).
+func Pause(d time.Duration) {
+	if d >= 2*time.Millisecond {
+		time.Sleep(d)
+		return
+	}
+	t := time.Now()
+	for time.Since(t) < d {
+		runtime.Gosched()
+	}
+}
+
 func (g *Gate) loop() {
 	for {
 		select {
 		case <-g.wake:
-		case <-time.After(time.Millisecond):
+		case <-time.After(2 * time.Millisecond):
 		}
 		g.mu.Lock()
 		if g.stopped {
@@ -235,7 +255,7 @@ func (g *Gate) loop() {
 			continue
 		}
 		// settle: let the goroutines that just got an answer (or just started) reach their next RPC
-		time.Sleep(g.w.opt.Settle)
+		Pause(g.w.opt.Settle)
 		g.step()
 		g.poke()
 	}
@@ -286,6 +306,7 @@ func (g *Gate) step() {
 		// start the hold: p stays pending, its client is not schedulable until the hold ends
 		f.started = true
 		f.since = time.Now()
+		g.w.rec.run.Count("fault:" + faultName(f))
 		start := f.Start
 		g.mu.Unlock()
 		if start != nil {
@@ -299,13 +320,25 @@ func (g *Gate) step() {
 			break
 		}
 	}
+	if g.w.opt.MaxRPCs > 0 && g.total >= g.w.opt.MaxRPCs {
+		// a scenario that keeps issuing requests (a retry loop that never ends) is reported as a hang
+		g.mu.Unlock()
+		if !g.w.closed && !g.w.hung {
+			g.w.hung = true
+			g.w.rec.run.Emit("hang rpc-budget", "FAIL hang")
+			g.w.rec.run.Count("hang")
+		}
+		g.w.closed = true
+		go g.shutdown()
+		return
+	}
 	p.picked = true
 	g.busy = true
 	g.nextID++
 	id := g.nextID
 	g.total++
 	p.c.rpcs.Add(1)
-	if f != nil {
+	if f != nil && !f.Repeat {
 		f.fired = true
 	}
 	g.mu.Unlock()
@@ -357,7 +390,7 @@ func (g *Gate) execute(id int, p *pendingRPC, f *Fault) (rpcResult, bool) {
 		}
 	}
 	rs, re, haveRegion := w.regionRange(p.req.Context.RegionId)
-	resp, err := p.inner.SendRequest(p.ctx, p.addr, p.req, p.timeout)
+	resp, err := g.guarded(id, p, Hx(rs)+" "+Hx(re))
 	line := ""
 	executed := false
 	switch {
@@ -405,6 +438,28 @@ func (g *Gate) execute(id int, p *pendingRPC, f *Fault) (rpcResult, bool) {
 		}
 	}
 	return rpcResult{resp, err}, false
+}
+
+// guarded executes the request on the inner (mock) client; a panic inside the mock's handler (it panics on a request whose
+// keys lie outside the addressed region) is turned into an RPC error and reported as its own event:
+// `mockpanic <id> <client> <rstart> <rend> <message> | <cmd>` with `FAIL mockpanic` on the implementation side.
+func (g *Gate) guarded(id int, p *pendingRPC, region string) (resp *tikvrpc.Response, err error) {
+	defer func() {
+		if e := recover(); e != nil {
+			msg := strings.ReplaceAll(fmt.Sprint(e), " ", "_")
+			key := p.c.name + " " + p.cmd
+			if !g.w.closed && !g.panicked[key] {
+				if g.panicked == nil {
+					g.panicked = map[string]bool{}
+				}
+				g.panicked[key] = true
+				g.w.rec.run.Emit(fmt.Sprintf("mockpanic %d %s %s %s | %s", id, p.c.name, region, msg, p.cmd), "FAIL mockpanic")
+				g.w.rec.run.Count("mockpanic")
+			}
+			resp, err = nil, errors.New("verif: mock panicked: "+msg)
+		}
+	}()
+	return p.inner.SendRequest(p.ctx, p.addr, p.req, p.timeout)
 }
 
 // parkRest parks the other pending requests of a client that just died (trace lock held).
@@ -470,8 +525,8 @@ type gateClient struct {
 	inner tikv.Client
 }
 
-func (gc *gateClient) Close() error                  { return nil } // the mock store is shared: the world closes it
-func (gc *gateClient) CloseAddr(addr string) error   { return nil }
+func (gc *gateClient) Close() error                                { return nil } // the mock store is shared: the world closes it
+func (gc *gateClient) CloseAddr(addr string) error                 { return nil }
 func (gc *gateClient) SetEventListener(l tikv.ClientEventListener) {}
 
 func (gc *gateClient) SendRequest(ctx context.Context, addr string, req *tikvrpc.Request, timeout time.Duration) (*tikvrpc.Response, error) {
